@@ -117,6 +117,18 @@ func (mc *c19Machine) fail(t *rapid.T, f string, a ...any) {
 func (mc *c19Machine) verifyAll(t *rapid.T) {
 	otherTrafficEvery(3) // unrelated encodes / decodes happen between the operation and its verification
 	keys := c19Keys()
+	// things that are not a key at all (empty key sets, sets of unusable
+	// keys, malformed key objects): in NO state of the Evidence is that a
+	// verification that succeeds (whether it errors or panics is not judged)
+	for i, k := range malformedKeys() {
+		ok := func() (verified bool) {
+			defer func() { _ = recover() }()
+			return mc.ev.Verify(k) == nil
+		}()
+		if ok {
+			mc.fail(t, "Verify succeeds with malformed key object #%d (%T) although no signature can have been checked with it (envelope state: %s)", i, k, mc.env.kind)
+		}
+	}
 	for i, k := range keys {
 		err := mc.ev.Verify(k.Pub)
 		switch mc.env.kind {
